@@ -369,5 +369,11 @@ pub fn run(tier: Tier) -> i32 {
     rep.stats.sample(json!({"adapter":"i8","values":[-128,127,0,1,63],"oracle":"Value::Int with the same value"}));
     rep.rule = "model documents (the per-field product of the shared alphabets plus 81 documents over the 64-bit / double extremes, nested and inside arrays) rendered into every supported representation: serde_yaml::Mapping, serde_json::Value and Map (NaN/inf skipped), HashMap<String,_> built only from std types through the shipped adapters (integer width rotated so that every adapter is used), a hand-written Document with its own path resolution, and &dyn Object; x the numeric rule family (every key modifier x boundary constants, cast comparisons) and the shared universe. every rule as loaded and in up to four optimised forms. Oracle: every representation gives the verdict of the model document (same form of the rule); each std adapter yields the value kind with the same numeric value and signedness (Value inspected directly). non-trivial = rule is discriminating".into();
     rep.assumptions = vec!["f32 values are compared after exact widening to f64".into()];
-    rep.finish()
+    // the same exploration on the crate built with its `sync` feature (own copies of find / adapters)
+    let vrc = crate::report::run_variant(&mut rep, "sync", "/verif/harness/target-sy/release/tv");
+    if vrc >= 2 {
+        return 2;
+    }
+    let rc = rep.finish();
+    rc.max(vrc)
 }
